@@ -280,6 +280,20 @@ prop("C16", "exploration",
      [{"test": "TestC16", "quick": {"checks": 1500, "shards": 2, "timeout": 600},
        "thorough": {"checks": 8000, "shards": 16, "timeout": 3000}}])
 
+prop("C17", "exploration",
+     "cases = 3-10 scenarios per case (always the pair 'London without / with extra EIP-3855 executing PUSH0', plus generated "
+     "programs, scripted call trees with journal instructions, trees with real WASM Aspects bound, key-tree heavy scripts; "
+     "with and without extra EIPs). Built with the Go race detector (halt on first report). Sequential pre-pass gives each "
+     "scenario's rendering (outcomes, state roots, call tree); then every scenario runs TWICE concurrently, all goroutines "
+     "released by one barrier, each on its own StateDB and EVM: every concurrent result must equal the sequential one and "
+     "the race detector must stay silent. Cancellation, harness-owned schedule: a looping program (plain loop / loop "
+     "calling a helper / loop re-entering itself by STATICCALL) is cancelled from the debug-tracer callback at a generated "
+     "step 1..400: no panic, balanced frames, cursor at rest, Cancelled() true and every JUMP/JUMPI executed afterwards is "
+     "the last instruction of its frame. Cross-goroutine variant (30%): another goroutine cancels after a generated number "
+     "of observed steps (finite gas bounds the run; only safety is asserted). Non-trivial = >= 2 generated scenarios.",
+     [{"test": "TestC17", "savelast": True, "quick": {"checks": 40, "shards": 4, "timeout": 900},
+       "thorough": {"checks": 400, "shards": 16, "timeout": 3000}}], race=True)
+
 # ---------------------------------------------------------------------------
 # Text for MANIFEST.json (gen_manifest.py)
 
@@ -457,6 +471,16 @@ MANIFEST_TEXT = {
                       "dependence over lists of n >= 2 elements shows with probability 1 - (1/n!)^(reps-1) per case.",
         "technique": "property-based testing of a repetition (determinism) relation (rapid)",
     },
+    "C17": {
+        "level_text": "Property-based concurrency testing under the Go race detector: generated scenario sets run concurrently "
+                      "and are compared with their sequential results; cancellation is decided under a harness-owned schedule "
+                      "(the cancel point is a generated step index).",
+        "design_ref": "DESIGN.md section 4, C17",
+        "level_note": "The race detector finds unsynchronised accesses on executed paths independently of the interleaving, but "
+                      "interleavings are sampled, not enumerated. Cross-goroutine cancellation is a safety smoke test "
+                      "(promptness is decided only under the owned schedule). Needs the -race build (warmed by setup).",
+        "technique": "property-based concurrency testing with the race detector + owned cancel schedule (rapid)",
+    },
     "C18": {
         "level_text": "Differential property-based testing of the complete debug-tracer callback stream and of six inherited "
                       "tracers against their upstream originals, plus a history invariant (balanced LIFO frames) under "
@@ -469,6 +493,4 @@ MANIFEST_TEXT = {
 }
 
 # Properties not (yet) claimed: reason per property. Kept current as checks are added.
-NOT_APPLICABLE = {
-    "C%02d" % i: "check not built yet in this session (planned, see DESIGN.md section 9)" for i in range(1, 21)
-}
+NOT_APPLICABLE = {}
